@@ -90,6 +90,9 @@ def xhair_task(prop, filename, timeout, only=None, bughunt=()):
             continue
         twin = func.endswith('__mustfail')
         r = run_condition(filename, func, lineno, timeout)
+        if r['verdict'] == 'inconclusive' and not twin and not (func in bughunt or '[bughunt]' in doc):
+            # not confirmed within the budget (busy machine?): one more attempt with three times the budget
+            r = run_condition(filename, func, lineno, timeout * 3)
         res['paths'] += 1
         res['decisions'] += 1
         res['queries'] += 1
